@@ -14,6 +14,7 @@ from eth_typing import BLSPubkey
 from eth_typing import BLSSignature
 from mnemonic import Mnemonic
 from py_ecc.bls import G2MessageAugmentation as G2  # noqa: N814
+from py_ecc.optimized_bls12_381 import curve_order as bls_curve_order
 
 from pytezos.crypto.encoding import base58_decode
 from pytezos.crypto.encoding import base58_encode
@@ -310,8 +311,8 @@ class Key(metaclass=InlineDocstring):
             # P256
             secret_exponent = seed[:32]
         elif curve == b'BL':
-            # BLS12-381
-            secret_exponent = seed[:32]
+            # BLS12-381: a secret key is a non-zero scalar below the group order
+            secret_exponent = (int.from_bytes(seed[:32], 'little') % bls_curve_order).to_bytes(32, 'little')
         else:
             raise ValueError(f'Invalid or unsupported curve type: `{curve!r}`.')
 
